@@ -35,6 +35,20 @@ type acSpec struct {
 	// increasing with the level). Refusal is then a trivial pass; if the library
 	// accepts the layout the run continues and the reference oracle judges the result.
 	expectRefusal string
+	// own, when set, builds a party's own object for the same policy (every party of a
+	// real deployment constructs its access structure itself; for CNF the maximal
+	// unqualified sets are then listed in a party-specific order).
+	own func(id sim.ID) (accessstructures.Monotone, error)
+}
+
+// libOf returns the access-structure object party id uses.
+func (a *acSpec) libOf(id sim.ID) accessstructures.Monotone {
+	if a.own != nil {
+		if l, err := a.own(id); err == nil {
+			return l
+		}
+	}
+	return a.lib
 }
 
 func idSet(ids []sim.ID) map[sim.ID]bool {
@@ -265,6 +279,17 @@ func genAccess(w *rand.Rand, n int, forceKind string, fixedIDs ...[]sim.ID) (*ac
 				sets[i] = idSet(u)
 			}
 			a.lib, err = newCNF(us)
+			usCopy := append([][]sim.ID(nil), us...)
+			a.own = func(id sim.ID) (accessstructures.Monotone, error) {
+				k := int(uint64(id) % uint64(len(usCopy)))
+				rot := append(append([][]sim.ID(nil), usCopy[k:]...), usCopy[:k]...)
+				if (uint64(id)/uint64(len(usCopy)))%2 == 1 {
+					for i, j := 0, len(rot)-1; i < j; i, j = i+1, j-1 {
+						rot[i], rot[j] = rot[j], rot[i]
+					}
+				}
+				return newCNF(rot)
+			}
 			a.qualified = func(s map[sim.ID]bool) bool {
 				any := false
 				for id := range s {
